@@ -494,6 +494,7 @@ def decode_seq(seq, encoding, errors='strict'):
     if enc in ('utf-8', 'utf8', 'idna', 'latin-1', 'latin1'):
         used('codec %s: decoding is a partial injective map on byte strings; UnicodeDecodeError possible for any input' % enc)
         if enc not in ('latin-1', 'latin1') and E.cur().choose('decode_error'):
+            E.cur().overapprox.append('%s decode error (assumed raise-set)' % enc)
             raise_(UnicodeDecodeError, enc)
         return SStr(seq.copy('bytes'), enc)
     raise E.Unsupported('codec %s' % encoding)
@@ -507,6 +508,7 @@ def encode_str(s, encoding):
         if enc in ('ascii', 'us-ascii'):
             used('text decoded with %s re-encoded as ascii: UnicodeEncodeError possible' % s.enc)
             if E.cur().choose('encode_error'):
+                E.cur().overapprox.append('%s encode error (assumed raise-set)' % enc)
                 raise_(UnicodeEncodeError, enc)
             return s.seq.copy('bytes')
         raise E.Unsupported('re-encode %s text as %s' % (s.enc, enc))
@@ -645,6 +647,10 @@ def _seq_rstrip(s, chars=None):
 
 @method_model('seq', 'join')
 def _seq_join(sep, items):
+    if isinstance(items, SSeq) and items.elem == 'byte1':
+        if not (z3.is_int_value(sep.n) and sep.n.as_long() == 0):
+            raise E.Unsupported('join of single bytes with a non-empty separator')
+        return SSeq(items.n, items._at, sep.kind)
     view = loops.iteration_view(items)
     if view[0] != 'concrete':
         raise E.Unsupported('join over symbolic-length iterable')
@@ -854,10 +860,22 @@ def _from_code(cls, code):
             return SEnum(cls, V.simp(idx))
         raise E.PyRaise(I.construct(_InvalidValue, [code, cls, 'code'], {}))
     if isinstance(code, SStr):
+        P = E.cur()
         ms = list(cls)
-        for k, m in enumerate(ms):
+        q = code.seq
+        conds = []
+        for m in ms:
             c = m.value.code
-            if isinstance(c, str) and ops.truth(ops.eq_values(code, c)):
-                return m
+            if not isinstance(c, str):
+                conds.append(z3.BoolVal(False))
+                continue
+            raw = c.encode('utf-8')
+            conds.append(z3.And(q.n == len(raw), *[q.at(k) == raw[k] for k in range(len(raw))]))
+        idx = z3.IntVal(-1)
+        for k in range(len(ms) - 1, -1, -1):
+            idx = z3.If(conds[k], z3.IntVal(k), idx)
+        if P.branch(z3.Or(*conds)):
+            idx = V.simp(idx)
+            return ms[idx.as_long()] if z3.is_int_value(idx) else SEnum(cls, idx)
         raise E.PyRaise(I.construct(_InvalidValue, [code, cls, 'code'], {}))
     raise E.Unsupported('from_code(%s)' % type(code).__name__)
